@@ -34,7 +34,7 @@ def str_lit(s: str) -> str:
 
 class FuncTr:
     def __init__(self, known_funcs=(), ctors=None, option_exprs=(), self_fields=None,
-                 qmode=False, method_proj=(), aliases=None, return_state=()):
+                 qmode=False, method_proj=(), aliases=None, return_state=(), str_exprs=()):
         self.known = set(known_funcs)          # names of other translated functions
         self.ctors = ctors or {}               # Python class name -> Coq constructor
         self.option_exprs = set(option_exprs)  # ast.unparse() texts that are Optional objects
@@ -43,6 +43,7 @@ class FuncTr:
         self.binders = dict(aliases or {})     # unparse text -> variable (aliases, Some-binders)
         self.method_proj = set(method_proj)    # zero-arg methods treated as projections
         self.return_state = list(return_state)  # state variables paired with every returned value (methods that update self)
+        self.str_exprs = set(str_exprs)         # ast.unparse() texts of string-valued operands: == / != on them is pystr_eqb
 
     # ---------- expressions ----------
     def num(self, n):
@@ -109,6 +110,17 @@ class FuncTr:
         left = e.left
         for op, right in zip(e.ops, e.comparators):
             a, b = self.expr(left), self.expr(right)
+            if ast.unparse(left) in self.str_exprs or ast.unparse(right) in self.str_exprs or \
+                    (isinstance(left, ast.Constant) and isinstance(left.value, str) and ast.unparse(left) not in self.binders) or \
+                    (isinstance(right, ast.Constant) and isinstance(right.value, str) and ast.unparse(right) not in self.binders):
+                if isinstance(op, ast.Eq):
+                    parts.append(f"(pystr_eqb {a} {b})")
+                elif isinstance(op, ast.NotEq):
+                    parts.append(f"(negb (pystr_eqb {a} {b}))")
+                else:
+                    raise Unsupported("ordering comparison of strings")
+                left = right
+                continue
             if self.qmode:
                 tbl = {ast.Lt: f"(Qltb {a} {b})", ast.LtE: f"(Qle_bool {a} {b})",
                        ast.Gt: f"(Qltb {b} {a})", ast.GtE: f"(Qle_bool {b} {a})",
